@@ -25,7 +25,7 @@ PROPS["C02"] = {
              "active / idle / paused-application-reader / paused-target-reader / closing in mid-transfer (either side) / asking for a channel the server refuses, payloads, write partitions, socket-buffer bounds, delivery "
              "chunking and (1 run in 8) a write-completion stall on the client's physical link while a stream is being opened; "
              "non-trivial = all non-paused connections completed while the others were still open (>= 2 open at once); distinct = schedule shapes"),
-    "probes": ["concurrent_worlds_completed", "connections_opened_together", "lingering_runs", "heavy_paused_reader", "fault_write_stall_armed", "fault_segmentation"],
+    "probes": ["concurrent_worlds_completed", "runs_with_a_crowd_of_connections", "connections_opened_together", "lingering_runs", "heavy_paused_reader", "fault_write_stall_armed", "fault_segmentation"],
     "technique": "deterministic simulation: seeded search over interleavings of k concurrent logical connections, per-connection PRF attribution, bounded-progress oracle",
     "level_text": ("Seeded exploration of interleavings: the driver decides the order of opens, writes, pauses and every delivery across k connections sharing "
                    "one session; isolation is decided by per-connection PRF streams (a foreign byte is attributed to its owner), independence by "
@@ -44,7 +44,7 @@ PROPS["C14"] = {
              "manner (client shutdown, carrier reset, garbage frame, partition until the multiplexer keep-alive gives up, or not at all) and compares with idle; "
              "footprint = goroutines of the bubble grouped by creation site (harness excluded) + open simulated sockets/listeners; non-trivial = both batches "
              "completed; distinct = schedule shapes"),
-    "probes": ["logical_connections", "refused_connections", "silent_peers", "runs_with_scheduling_points", "session_end_checked", "fault_carrier_reset", "fault_carrier_timeout", "fault_partition", "fault_garbage_frame", "end_client_shutdown", "end_server_closes"],
+    "probes": ["logical_connections", "connections_open_at_session_end", "runs_with_a_crowd_of_connections", "refused_connections", "silent_peers", "runs_with_scheduling_points", "session_end_checked", "fault_carrier_reset", "fault_carrier_timeout", "fault_partition", "fault_garbage_frame", "end_client_shutdown", "end_server_closes"],
     "technique": "deterministic simulation: histories of N and 2N connections and fault-ended sessions, resource-ledger oracle + busy-loop detector",
     "level_text": ("Seeded exploration of connection histories and session endings. The oracle is a resource ledger taken at quiescent points after a drain of 150 "
                    "simulated seconds: constant (not linear) in the number of past connections, back to idle after the session ended, and no goroutine that emits "
@@ -61,7 +61,7 @@ PROPS["C17"] = {
     "rule": ("each run draws carrier x security x closer (application or target) x payload written before the close (0 bytes .. tier cap, boundary sizes) x write partition x "
              "whether the other side writes too x 0-2 background connections x socket-buffer bound x delivery chunking; the close is an ordinary driver event, so it races the "
              "last write's frames, the FIN and the opposite direction freely; non-trivial = the close took effect and the other end's outcome was judged; distinct = schedule shapes"),
-    "probes": ["closes_observed", "clean_eof", "runs_with_think_time", "runs_with_closing_neighbour", "fault_segmentation"],
+    "probes": ["closes_observed", "clean_eof", "runs_with_think_time", "runs_with_closing_neighbour", "runs_with_a_crowd_of_neighbours", "fault_segmentation"],
     "technique": "deterministic simulation: seeded search over close/last-write/FIN orderings per carrier, all-bytes-then-EOF oracle with bounded termination",
     "level_text": ("Seeded exploration: the non-closing end must read exactly the PRF stream the closer wrote and then end-of-stream, within 10 simulated minutes (30 over DNS) and never "
                    "sit 90 s with nothing deliverable; a shorter stream, an error instead of end-of-stream, or no termination are distinct rules."),
